@@ -3,6 +3,9 @@ package proxycache
 // C13 (wrapper): one proxy-cache operation with the k-th call into the cache or the origin failing.
 
 import (
+	"context"
+	"strings"
+
 	"perkeep.org/internal/vmodel"
 	"perkeep.org/internal/vrt"
 )
@@ -13,8 +16,13 @@ func VK13dProxycacheFault() {
 	sto := New(int64(2*vrt.Choice(2)+1), cache, origin) // budget 1 or 3 bytes
 	var have uint
 	for i := range blobs {
-		if vrt.Bool() {
+		switch vrt.Choice(3) {
+		case 1:
 			origin.Put(blobs[i].Ref, []byte(blobs[i].Data))
+			have |= 1 << uint(i)
+		case 2: // stored through the proxy: in the origin and (budget permitting) in the cache
+			_, err := sto.ReceiveBlob(context.Background(), blobs[i].Ref, strings.NewReader(blobs[i].Data))
+			vrt.Assert(err == nil, "setup receive succeeds")
 			have |= 1 << uint(i)
 		}
 	}
